@@ -220,22 +220,58 @@ theorem mem_vsDestinations_iff (v : VS) (cfgNs h : String) :
     · exact ⟨_, ⟨h, ⟨x, Or.inl ⟨r, ⟨hr, hc⟩, hxr⟩, hxh⟩, rfl⟩, rfl⟩
     · exact ⟨_, ⟨h, ⟨x, Or.inr hx, hxh⟩, rfl⟩, rfl⟩
 
-/-- the same for the gateway default scope (`VirtualServicesForGateway(ns, mesh)`). -/
-theorem gateway_vs_export_sound (m : Mesh) (vss : List VS) (cfgNs : String) (hvn : ∀ v ∈ vss, v.ns ≠ "*") :
-    ∀ v ∈ gatewayVirtualServices m vss cfgNs, v ∈ vss ∧ VSVisible m v cfgNs := by
+/-- **gateway_vs_export_sound**: `VirtualServicesForGateway(ns, gw)` - the VirtualService selection of
+    a gateway proxy of namespace `ns` for any gateway name `gw` (`mesh` for the default scope's listener,
+    `<ns>/<name>` for the servers of a Router) - only returns VirtualServices of the store that are bound
+    to `gw` and exported to `ns`. -/
+theorem gateway_vs_export_sound (m : Mesh) (vss : List VS) (cfgNs gw : String) (hvn : ∀ v ∈ vss, v.ns ≠ "*") :
+    ∀ v ∈ gatewayVirtualServices m vss cfgNs gw, v ∈ vss ∧ vsOnGw v gw = true ∧ VSVisible m v cfgNs := by
   intro v hv
   simp only [gatewayVirtualServices, List.mem_append, List.mem_filter] at hv
-  have pub : v ∈ vsPublic m vss → v ∈ vss ∧ VSVisible m v cfgNs := by
+  have pub : v ∈ vsPublicGw m vss gw → v ∈ vss ∧ vsOnGw v gw = true ∧ VSVisible m v cfgNs := by
     intro h
-    simp only [vsPublic, List.mem_filter, Bool.and_eq_true, List.contains_iff_mem] at h
-    exact ⟨h.1, vsVisible_of_index (hvn v h.1) (Or.inl h.2.2)⟩
+    simp only [vsPublicGw, List.mem_filter, Bool.and_eq_true, List.contains_iff_mem] at h
+    exact ⟨h.1, h.2.1, vsVisible_of_index (hvn v h.1) (Or.inl h.2.2)⟩
   rcases hv with ((h | h) | h) | h
-  · simp only [vsPrivate, List.mem_filter, Bool.and_eq_true, List.contains_iff_mem] at h
-    exact ⟨h.1, vsVisible_of_index (hvn v h.1) (Or.inr h.2.2)⟩
-  · simp only [vsExported, List.mem_filter, Bool.and_eq_true, List.contains_iff_mem] at h
-    exact ⟨h.1, vsVisible_of_index (hvn v h.1) (Or.inr h.2.2)⟩
+  · simp only [vsPrivateGw, List.mem_filter, Bool.and_eq_true, List.contains_iff_mem] at h
+    exact ⟨h.1, h.2.1.1.1.1, vsVisible_of_index (hvn v h.1) (Or.inr h.2.2)⟩
+  · simp only [vsExportedGw, List.mem_filter, Bool.and_eq_true, List.contains_iff_mem] at h
+    exact ⟨h.1, h.2.1.1.1.1, vsVisible_of_index (hvn v h.1) (Or.inr h.2.2)⟩
   · exact pub h.1
   · exact pub h.1
 
+/-! ### delegates -/
+
+/-- **spec**: the delegate VirtualService `d` is exported to the namespace of the root that refers to it -/
+def DelegateVisible (m : Mesh) (d : VS) (rootNs : String) : Prop := "*" ∈ vsExport m d ∨ rootNs ∈ vsExport m d
+
+/-- **delegate_export_sound**: every http route of a merged root VirtualService is one of its own
+    (non-delegating) routes, or a route of a delegate VirtualService (no hosts) of the store that is
+    exported to the root's namespace; a delegate that is not exported to the root contributes nothing. -/
+theorem delegate_export_sound (m : Mesh) (all : List VS) (root : VS) :
+    ∀ r ∈ mergedHttp m all root,
+      (r ∈ root.http ∧ r.delegate = none) ∨
+      ∃ d ∈ all, d.hosts = [] ∧ DelegateVisible m d root.ns ∧ r ∈ d.http := by
+  intro r hr
+  simp only [mergedHttp, List.mem_flatMap] at hr
+  obtain ⟨r0, hr0, hin⟩ := hr
+  cases hd : r0.delegate with
+  | none => simp only [hd, List.mem_singleton] at hin; subst hin; exact Or.inl ⟨hr0, hd⟩
+  | some ref =>
+    simp only [hd] at hin
+    cases hf : findDelegate all root ref with
+    | none => simp [hf] at hin
+    | some d =>
+      simp only [hf] at hin
+      split at hin
+      · rename_i hv
+        unfold findDelegate at hf
+        have hm := List.mem_of_find?_eq_some hf
+        have hp := List.find?_some hf
+        simp only [Bool.and_eq_true, List.isEmpty_iff] at hp
+        refine Or.inr ⟨d, hm, hp.1.1, ?_, hin⟩
+        unfold delegateVisible at hv
+        simpa [DelegateVisible, Bool.or_eq_true, List.contains_iff_mem] using hv
+      · simp at hin
 
 end IstioModel.C07
